@@ -67,8 +67,17 @@ func Run(ctx *common.Ctx) {
 				ds = append(ds, docArg{marker: "&allow-other-keys"})
 			}
 		}
+		var auxIDs []int
 		if ctx.Rng.Chance(25) {
+			auxIDs = append(auxIDs, next)
 			ds = append(ds, docArg{marker: "&aux"}, v(true))
+		}
+		// keywords standing among the positional arguments name a key parameter; for a lambda list with
+		// &rest and &aux but no &key they name the &aux parameter (the binder leaves rest mode at ANY
+		// keyword naming a later parameter)
+		kwPool, kwChance := keyIDs, 6
+		if len(keyIDs) == 0 && hasRest && len(auxIDs) > 0 {
+			kwPool, kwChance = auxIDs, 25
 		}
 		var ll, body, gds []string
 		for _, d := range ds {
@@ -98,8 +107,8 @@ func Run(ctx *common.Ctx) {
 			var args, gargs []string
 			npos := ctx.Rng.Intn(7)
 			for i := 0; i < npos; i++ {
-				if ctx.Rng.Chance(6) && len(keyIDs) > 0 {
-					id := common.Pick(ctx.Rng, keyIDs)
+				if ctx.Rng.Chance(kwChance) && len(kwPool) > 0 {
+					id := common.Pick(ctx.Rng, kwPool)
 					args = append(args, ":"+pnames[id])
 					gargs = append(gargs, fmt.Sprintf("AKw %d", id))
 				} else if ctx.Rng.Chance(8) {
@@ -180,7 +189,7 @@ func Run(ctx *common.Ctx) {
 		}
 	}
 	ctx.Meta.DistinctNontrivial = len(distinct)
-	ctx.Meta.Rule = "lambda lists: 0-3 required x 0-2 &optional (60% with a literal default) x &rest (35%) x &key with 0-3 keys (50%, 10% &allow-other-keys) x &aux (25%); per list 14 (thorough 30) argument vectors: 0-6 positional integers (6% a keyword instead) followed by 0-3 keyword/value pairs (12% unknown key, 7% missing value, duplicates possible); the body reports every parameter or :unbound; distinct = distinct (lambda list, argument vector) pairs"
+	ctx.Meta.Rule = "lambda lists: 0-3 required x 0-2 &optional (60% with a literal default) x &rest (35%) x &key with 0-3 keys (50%, 10% &allow-other-keys) x &aux (25%); per list 14 (thorough 30) argument vectors: 0-6 positional integers (6% a keyword naming a key parameter instead; 25% a keyword naming the &aux parameter when the list has &rest and &aux but no &key) followed by 0-3 keyword/value pairs (12% unknown key, 7% missing value, duplicates possible); the body reports every parameter or :unbound; distinct = distinct (lambda list, argument vector) pairs"
 	header := "From C04 Require Import Model Spec Corr.\nOpen Scope N_scope.\n"
 	footer := "Definition res := Eval vm_compute in check_all cases.\nPrint res.\nDefinition gcount := Eval vm_compute in guard_count cases.\nPrint gcount.\n"
 	ctx.WriteShards("cases", header, "case", footer, terms, descs, 16)
